@@ -17,7 +17,7 @@ def opTypeOf (j : Json) : R Json := do
     | "jsonForeignSibling" | "jsonTopForeign" | "jsonAnonTop" | "jsonAnonNested" | "jsonAnonList" => jsonType n hooks
     | "jsonEscapedTop" | "jsonEscapedNested" | "jsonEscapedList" => jsonType n hooks
     | "gobTop" | "gobNested" | "gobList" | "gobItemList" => gobType n
-    | v => if v.startsWith "jsonField:" || v.startsWith "jsonCompact:" then jsonType n hooks else if v.startsWith "gobField:" then gobType n else "?"
+    | v => if v.startsWith "jsonField:" || v.startsWith "jsonCompact:" || v.startsWith "jsonItemListAfterNothing:" then jsonType n hooks else if v.startsWith "gobField:" || v.startsWith "gobRecipient:" then gobType n else "?"
   if t == "mismatch" then return Json.mkObj [("outside", Json.bool true)]   -- registry and switches disagree on the struct: no prediction
   return Json.str t
 
